@@ -108,7 +108,13 @@ public:
 
 		~DisableQueueNotify()
 		{
-			--queue->queueNotifyCounter;
+			{
+				// The counter must change under the mutex that wait()/waitFor() hold while they
+				// evaluate their predicate. Otherwise a waiter that has just seen the counter
+				// non-zero can block right after the notify_one below and the wake-up is lost.
+				std::lock_guard<Mutex> queueListLock(queue->queueListMutex);
+				--queue->queueNotifyCounter;
+			}
 			EVENTPP_VERIF_POINT("eventqueue.disablenotify.after-decrement", queue);
 
 			if(queue->doCanNotifyQueueAvailable() && ! queue->emptyQueue()) {
